@@ -1005,13 +1005,22 @@ PropHolds(s) ==
       OkHasBody |->
           \A k \in DOMAIN s.iv : (s.iv[k].m = "ret" /\ s.iv[k].out = "") => s.iv[k].got,
       \* C04, C09: an INVOKE or SHUTDOWN event is only ever answered to an extension whose current registration
-      \* subscribed to it
+      \* subscribed to it (the one history of the recorded finding F-C09-1 is the next predicate)
       EventsOnlyToSubscribers |->
           \A c \in DOMAIN s.calls :
               (s.calls[c].st = "done" /\ s.calls[c].who \in Agents(s) /\ s.calls[c].api = "next"
                  /\ s.calls[c].agen = s.ag[s.calls[c].who].rid /\ s.calls[c].res.status = 200
-                 /\ s.calls[c].res.kind \in {"INVOKE", "SHUTDOWN"})
+                 /\ s.calls[c].res.kind \in {"INVOKE", "SHUTDOWN"}
+                 /\ ~(s.calls[c].res.kind = "SHUTDOWN" /\ s.calls[c].res.reason = "ReleaseFail"))
               => s.calls[c].res.kind \in s.ag[s.calls[c].who].subs,
+      \* C09 (F-C09-1): the SHUTDOWN event of a failure reset only goes to subscribers - also to a poll that had been
+      \* released for the INVOKE of the dispatch that failed
+      FailResetShutdownOnlyToSubscribers |->
+          \A c \in DOMAIN s.calls :
+              (s.calls[c].st = "done" /\ s.calls[c].who \in Agents(s) /\ s.calls[c].api = "next"
+                 /\ s.calls[c].agen = s.ag[s.calls[c].who].rid /\ s.calls[c].res.status = 200
+                 /\ s.calls[c].res.kind = "SHUTDOWN" /\ s.calls[c].res.reason = "ReleaseFail")
+              => "SHUTDOWN" \in s.ag[s.calls[c].who].subs,
       \* C18: a restore is never reported successful while the runtime is still parked in its restore poll
       \* (it must have been released, run its hooks and asked for its next event; a runtime still busy with the
       \* hooks of an earlier, failed restore is not covered)
